@@ -2,7 +2,8 @@
 // /repo/src against plain GMP, exhaustively over small operands: every odd modulus 3..63, every base
 // coprime to it, every exponent -130..130 (covers multiples of the modulus, the table limit and one
 // beyond is not reachable with the shipped TMCG_MAX_FPOWM_T); every odd prime p < 600 and every
-// quadratic residue for the square roots, every Blum product of two primes < 60.
+// quadratic residue for the square roots, every Blum product of two primes < 60; the table-based variants
+// additionally on machine-word exponents at every bit boundary up to 2^63.
 #include "replay_common.hh"
 #include <libTMCG.hh>
 static int bad = 0;
@@ -38,6 +39,31 @@ int main(int, char **)
 					}
 					catch (std::exception &e) { FAIL("%s(%lu, %ld, %lu) throws '%s' for a base coprime to the modulus", names[f], mv, xv, pv, e.what()); }
 				}
+			}
+		}
+	// machine-word exponents of the table-based variants: every bit boundary 2^k-1, 2^k, 2^k+1 (k < 64) and small values
+	for (unsigned long pv = 3; pv < 40; pv += 2)
+		for (unsigned long mv = 2; mv < pv; mv += 3)
+		{
+			mpz_set_ui(p, pv); mpz_set_ui(m, mv); mpz_gcd(g, m, p);
+			if (mpz_cmp_ui(g, 1)) continue;
+			tmcg_mpz_fpowm_precompute(tab, m, p, 70);
+			std::vector<unsigned long> es;
+			for (unsigned long e = 0; e < 40; e++) es.push_back(e);
+			for (unsigned k = 5; k < 64; k++) { es.push_back((1UL << k) - 1); es.push_back(1UL << k); es.push_back((1UL << k) + 1); es.push_back((1UL << k) + (1UL << (k / 2)) + 5); }
+			es.push_back(~0UL >> 1);
+			for (size_t j = 0; j < es.size(); j++)
+			{
+				mpz_powm_ui(ref, m, es[j], p);
+				try { mpz_set_ui(res, 0); tmcg_mpz_fpowm_ui(tab, res, m, es[j], p);
+					if (mpz_cmp(res, ref)) FAIL("tmcg_mpz_fpowm_ui(%lu, %lu, %lu) differs from the plain modular power", mv, es[j], pv); }
+				catch (std::exception &e) { FAIL("tmcg_mpz_fpowm_ui(%lu, %lu, %lu) throws '%s'", mv, es[j], pv, e.what()); }
+				mpz_set_ui(x, es[j]);
+				try { mpz_set_ui(res, 0); tmcg_mpz_fpowm(tab, res, m, x, p);
+					if (mpz_cmp(res, ref)) FAIL("tmcg_mpz_fpowm(%lu, %lu, %lu) differs from the plain modular power", mv, es[j], pv);
+					mpz_set_ui(res, 0); tmcg_mpz_fspowm(tab, res, m, x, p);
+					if (mpz_cmp(res, ref)) FAIL("tmcg_mpz_fspowm(%lu, %lu, %lu) differs from the plain modular power", mv, es[j], pv); }
+				catch (std::exception &e) { FAIL("tmcg_mpz_f(s)powm(%lu, %lu, %lu) throws '%s'", mv, es[j], pv, e.what()); }
 			}
 		}
 	for (unsigned long pv = 3; pv < 600 && bad < 12; pv += 2)
